@@ -11,6 +11,7 @@ import (
 	"strings"
 
 	"github.com/llir/llvm/ir"
+	"github.com/llir/llvm/ir/metadata"
 	"github.com/llir/llvm/ir/value"
 )
 
@@ -364,6 +365,39 @@ func AnalyseWith(x interface{}, flags bool) Row {
 				}
 			}
 			if !found {
+				row.Live = false
+			}
+		}
+	}()
+	// (g) arguments passed AS METADATA (`call void @llvm.dbg.value(metadata i32 %x, ...)`): the argument list holds a *metadata.Value. Whatever the view exposes
+	// for such an argument, every exposed slot must be LIVE: a write through it is read back by the next call of Operands() at the same position (a slot that is
+	// the address of a copy loses the write)
+	func() {
+		defer func() {
+			if e := recover(); e != nil {
+				row.Live = false
+			}
+		}()
+		if _, ok := t.FieldByName("Callee"); !ok {
+			return
+		}
+		inst8 := reflect.New(t)
+		var slots8 []slot
+		n8 := 0
+		fill(inst8.Elem(), "", &slots8, &n8)
+		af := inst8.Elem().FieldByName("Args")
+		if !af.IsValid() || af.Kind() != reflect.Slice || af.Type().Elem() != valueType {
+			return
+		}
+		for i := 0; i < af.Len(); i++ {
+			af.Index(i).Set(reflect.ValueOf(&metadata.Value{Value: ir.NewBlock(fmt.Sprintf("md%d", i))}))
+		}
+		ops8 := inst8.Interface().(operander).Operands()
+		for i, p := range ops8 {
+			nb := ir.NewBlock(fmt.Sprintf("mdw%d", i))
+			*p = nb
+			again := inst8.Interface().(operander).Operands()
+			if len(again) != len(ops8) || *again[i] != value.Value(nb) {
 				row.Live = false
 			}
 		}
